@@ -1335,7 +1335,13 @@ func runLimits(cfg *config, id int, r *hx.Rng) {
 	d.reopen()
 	d.selectEvery()
 	d.dump()
-	d.insertv("t1", nil, [][]interface{}{{int64(7), str(390 + r.Intn(12))}})
+	// several acknowledged records for recovery to redo, rows of equal encoded size with different bytes (ninth
+	// seeded round: replayed values that all aliased the buffer of the LAST record read from the log)
+	tail := 390 + r.Intn(12)
+	d.insertv("t1", nil, [][]interface{}{{int64(7), str(tail)}})
+	d.insertv("t1", nil, [][]interface{}{{int64(8), str(tail)}})
+	d.stmt(fmt.Sprintf("UPDATE t1 SET c1 = '%s' WHERE c0 = 7", str(tail)))
+	d.insertv("t1", nil, [][]interface{}{{int64(9), str(tail)}})
 	d.crash()
 	if d.recoverDB() == "ok" {
 		d.selectEvery()
